@@ -218,7 +218,8 @@ Proof.
   intros Hm F. destruct (FrK_nonpark s r Y Hm F) as [r2 d2 p2 i2 a2 f2].
   destruct F as [_ _ _ _ a3 _ _]. unfold parked in *. psimpl. rewrite Hm in *.
   constructor; psimpl; auto.
-  destruct a3 as [->|[? _]]; [lia | discriminate].
+  - unfold parked. psimpl. rewrite Hm. exact p2.
+  - destruct a3 as [->|[? _]]; [lia | discriminate].
 Qed.
 
 Lemma body_KFetchResp_fr offs ts s r s' o :
@@ -239,8 +240,7 @@ End Rec.
 (* ---------------- every nested execution, for every fuel ---------------- *)
 Theorem run_frame fuel k s r s' o : run fuel k s = (r, s', o) -> PostF k s r s' o.
 Proof.
-  revert fuel k s r s' o.
-  apply (run_ind (fun _ _ => True) (fun k s r s' o => PostF k s r s' o)).
+  intro H. refine (run_ind (fun _ _ => True) PostF _ _ fuel k s r s' o I H); clear.
   - intros k s _ Hf. discriminate Hf.
   - intros f IH k s r s' o _ H Hf.
     assert (IH' : forall k s r s' o, run f k s = (r, s', o) -> PostF k s r s' o) by (intros; eapply IH; eauto).
